@@ -482,7 +482,7 @@ func runOverlayTest(repo, pkgDir, src string) (string, bool, string) {
 	args := []string{"test", "-mod=mod", "-overlay", ovf, "-vet=off", "-count=1", "-timeout", "60s", "-run", "TestGocvReplay", "./" + pkgDir + "/"}
 	cmd := exec.CommandContext(ctx, "go", args...)
 	cmd.Dir = repo
-	cmd.Env = append(os.Environ(), "GOFLAGS=", "GOPROXY=off")
+	cmd.Env = append(os.Environ(), "GOFLAGS=-trimpath", "GOPROXY=off")
 	out, err := cmd.CombinedOutput()
 	return string(out), err != nil, "cd " + repo + " && go " + strings.Join(args, " ")
 }
